@@ -19,7 +19,7 @@ from vlib.ref import classify as C
 from vlib.util import call
 
 PROPERTY_ID = "C20"
-OPTIMIZED = ['intents']   # clauses run a second time under `python -O` (assert statements stripped)
+OPTIMIZED = ['intents']   # clauses run a second time under `python -O` (assert statements stripped); broken-pipe starts its own interpreters
 RULE = ("structured intents: sub-command (five) + source value + optional passphrase/--testnet/--paranoia/--account/"
         "--interval/--file (path in a generated state), rendered to argv with permuted option order, --opt=value and "
         "unambiguous-prefix spellings; each intent is clean or carries one fault at a validator bound; main() runs in "
@@ -44,7 +44,8 @@ FAULTS = ["none", "none", "none", "account", "interval", "interval-hardened", "w
           "entropy-len", "entropy-nonhex", "xkey-len", "xkey-checksum", "xkey-public", "unknown-command",
           "missing-positional", "mnemonic-len", "no-command", "unknown-option"]
 FILE_STATES = ["none", "none", "absent", "absent", "existing", "directory", "missing-parent", "parent-is-file",
-               "symlink-existing", "symlink-dangling", "twice", "tilde-existing", "existing-dotslash"]
+               "symlink-existing", "symlink-dangling", "twice", "tilde-existing", "existing-dotslash",
+               "fifo", "devnull", "symlink-devnull", "existing-empty"]
 
 
 def gen_intent(tier):
@@ -138,6 +139,25 @@ def build_argv(it, tmp):
             info["never"] = mk("first.json")
             path = mk("second.json")
             info["target"] = mk("second.json")
+        elif fstate == "fifo":
+            # an existing path that is not a regular file; a reader is attached by run_intent so that a write cannot block
+            os.mkfifo(mk("pipe.json"))
+            path = mk("pipe.json")
+            info["fifo"] = path
+            info["existing_special"] = path
+        elif fstate == "devnull":
+            path = "/dev/null"
+            info["existing_special"] = path
+        elif fstate == "symlink-devnull":
+            os.symlink("/dev/null", mk("sink.json"))
+            path = mk("sink.json")
+            info["existing_special"] = path
+        elif fstate == "existing-empty":
+            with open(mk("empty.json"), "w"):
+                pass
+            info["sentinels"].append(mk("empty.json"))
+            info["existing_special"] = mk("empty.json")
+            path = mk("empty.json")
         elif fstate == "tilde-existing":
             with open(mk("wallet.json"), "w") as f:
                 f.write(SENTINEL)
@@ -276,6 +296,8 @@ def snapshot(tmp):
                 out[p] = ("link", os.readlink(p))
             elif os.path.isdir(p):
                 out[p] = ("dir", None)
+            elif not os.path.isfile(p):
+                out[p] = ("special", None)
             else:
                 with open(p, "rb") as f:
                     out[p] = ("file", f.read())
@@ -287,11 +309,13 @@ def run_intent(it, ctx, use_subprocess=False):
     tmp = tempfile.mkdtemp(prefix="c20-")
     old_home = os.environ.get("HOME")
     recorded = {}
+    fifo_fd = None
     try:
         argv, info = build_argv(it, tmp)
         if "home" in info:
             os.environ["HOME"] = info["home"]
         before = snapshot(tmp)
+        fifo_fd = os.open(info["fifo"], os.O_RDONLY | os.O_NONBLOCK) if info.get("fifo") else None
         if use_subprocess:
             env = dict(os.environ, PYTHONPATH=repo_dir(), PYTHONDONTWRITEBYTECODE="1")
             p = subprocess.run([sys.executable, "-m", "btc_hd_wallet"] + argv, cwd=tmp, env=env, capture_output=True, text=True, timeout=600)
@@ -309,8 +333,15 @@ def run_intent(it, ctx, use_subprocess=False):
             finally:
                 del PW.new_wallet
         after = snapshot(tmp)
+        if fifo_fd is not None:
+            try:
+                info["fifo_bytes"] = os.read(fifo_fd, 1 << 20)
+            except BlockingIOError:
+                info["fifo_bytes"] = b""
         return argv, info, r, before, after, recorded
     finally:
+        if fifo_fd is not None:
+            os.close(fifo_fd)
         if old_home is None:
             os.environ.pop("HOME", None)
         else:
@@ -328,6 +359,12 @@ def judge(it, argv, info, r, before, after, recorded, ctx, mode):
                             % (what, os.path.basename(p), r["status"]))
     if changed:
         raise Violation("C20/files/existing-file-changed", "%s: changed %r" % (what, sorted(os.path.basename(p) for p in changed)))
+    if info.get("fifo_bytes"):
+        raise Violation("C20/files/existing-path-written", "%s: %d bytes were written into the existing named pipe given as "
+                        "--file (status %d): %r" % (what, len(info["fifo_bytes"]), r["status"], info["fifo_bytes"][:60]))
+    if info.get("existing_special") and r["status"] == 0 and not has_wallet_data(r["out"]):
+        raise Violation("C20/files/existing-path-accepted", "%s: --file named an existing path (%s) and the command exited 0 "
+                        "with no wallet on stdout: the output went into a path that existed" % (what, it["file"]))
     if info.get("never") in created:
         raise Violation("C20/files/unrequested-file-created", "%s created %s" % (what, os.path.basename(info["never"])))
     if r["status"] != 0:
@@ -480,6 +517,57 @@ def gen_thorough(tier):
     return base
 
 
+# ------------------------------------------------------------------------------------ output that cannot be delivered
+def enum_pipe(tier):
+    n = 0
+    for cmd in ("from-bip39-seed", "from-mnemonic", "from-entropy-hex", "from-master-xprv", "new"):
+        for rows in ((0, 0), (0, 1), (0, 40)):
+            n += 1
+            yield {"cmd": cmd, "rows": list(rows), "paranoia": bool(n & 1), "testnet": bool(n & 2), "n": n}
+
+
+def check_pipe(case, ctx):
+    """The real entry point with a standard output whose reader is gone (EPIPE on write, small and large outputs): the
+    JSON cannot have been printed, so the command must not report success."""
+    n = case["n"]
+    ent = bytes((n * 3 + i) & 0xFF for i in range(16))
+    seed = bytes((n * 5 + i) & 0xFF for i in range(64))
+    try:
+        rm = R.master(seed)
+    except R.Invalid:
+        return
+    sub = {"from-bip39-seed": ["from-bip39-seed", seed.hex()], "from-mnemonic": ["from-mnemonic", R39.encode(ent)],
+           "from-entropy-hex": ["from-entropy-hex", ent.hex()], "new": ["new", "--mnemonic-len", "12"],
+           "from-master-xprv": ["from-master-xprv", rm.xprv(R.TPRV if case["testnet"] else R.XPRV)]}[case["cmd"]]
+    argv = (["--paranoia"] if case["paranoia"] else []) + (["--testnet"] if case["testnet"] and case["cmd"] != "from-master-xprv" else []) \
+        + ["--interval", str(case["rows"][0]), str(case["rows"][1])] + sub
+    env = dict(os.environ, PYTHONPATH=repo_dir(), PYTHONDONTWRITEBYTECODE="1")
+    tmp = tempfile.mkdtemp(prefix="c20p-")
+    try:
+        # control: the same command line with a working stdout succeeds
+        p0 = subprocess.run([sys.executable, "-m", "btc_hd_wallet"] + argv, cwd=tmp, env=env, capture_output=True, text=True, timeout=600)
+        if p0.returncode != 0:
+            ctx.count("control-run-rejected (not judged)")
+            ctx.nontrivial = False
+            return
+        rfd, wfd = os.pipe()
+        os.close(rfd)
+        try:
+            p = subprocess.run([sys.executable, "-m", "btc_hd_wallet"] + argv, cwd=tmp, env=env, stdout=wfd, stderr=subprocess.PIPE,
+                               text=True, timeout=600)
+        finally:
+            os.close(wfd)
+        ctx.count("status=%s" % ("0" if p.returncode == 0 else "non-zero"))
+        if p.returncode == 0:
+            raise Violation("C20/broken-pipe/success-reported", "argv %r with a standard output whose reader is gone (EPIPE): exit "
+                            "status 0 although the %d-character JSON cannot have been delivered (stderr %r)"
+                            % (argv, len(p0.stdout), p.stderr[-200:]))
+        if os.listdir(tmp):
+            raise Violation("C20/rejected/file-created", "argv %r with a closed stdout left files %r" % (argv, os.listdir(tmp)))
+    finally:
+        shutil.rmtree(tmp, ignore_errors=True)
+
+
 def clauses():
     return [
         Clause("intents", check_intent,
@@ -490,7 +578,13 @@ def clauses():
                "outside), rows are m/P'/c'/a'/0/i with non-hardened i inside the requested interval; 3% (quick) / 5% "
                "(thorough) re-run as a real `python -m btc_hd_wallet` subprocess; non-trivial = faulted intent or "
                "non-default network/account/interval/file",
-               gen=gen_thorough, enum=enum_grid, enum_desc="19 fault kinds x 11 file-path states",
+               gen=gen_thorough, enum=enum_grid, enum_desc="19 fault kinds x 15 file-path states (absent, existing, directory, symlinks, named pipe, /dev/null, ...)",
                nontrivial=nt_intent, classes=classes_intent,
                n={"quick": 420, "thorough": 10000}, shards={"quick": 16, "thorough": 16}),
+        Clause("broken-pipe", check_pipe,
+               "fault injection on the real entry point (`python -m btc_hd_wallet` subprocess): standard output is a pipe "
+               "whose read end is closed, for outputs below and above the stdio buffer size; after a control run with a "
+               "working stdout succeeded, the faulted run must exit non-zero and leave no file",
+               enum=enum_pipe, exhaustive=True, enum_desc="5 commands x 3 output sizes (0, 1, 40 rows per section)",
+               nontrivial=lambda c: True, shards={"quick": 15, "thorough": 15}),
     ]
